@@ -52,11 +52,17 @@ type World struct {
 	NavNamed   *types.Named
 	QueryNamed *types.Named
 
-	census *Census
-	argSite *ssa.BasicBlock // scratch: call site whose arguments are being traced (B-ARGS)
-	curProp string          // property being decided (relevance.go)
-	implNamesCache map[*ssa.Function][]string
+	census          *Census
+	argSite         *ssa.BasicBlock // scratch: call site whose arguments are being traced (B-ARGS)
+	curProp         string          // property being decided (relevance.go)
+	implNamesCache  map[*ssa.Function][]string
 	faultScopeCache map[*ssa.Function]bool
+	rolesCache      *builderRoles
+	fnBuildsCache   map[fnBuildKey][]buildOutcome
+	bindCache       map[string][]*types.Func
+	opBuildsCache   map[string][]buildOutcome
+	opDispatchCache *opDispatch
+	axBuildsCache   map[string][]buildOutcome
 }
 
 func loadWorld(repo string, tags string) (*World, error) {
